@@ -20,7 +20,8 @@
 (*   buf      shared buffer of _mpt_buffer_alloc, handles are arrays        *)
 (*   hmeta    harness-implemented metatype counting with mpt_refcount_*     *)
 (*   reply    mpt_reply_deferrable context (metatype + deferred handles)    *)
-(*   rawdata  mpt_rawdata_create                                            *)
+(*   rawdata  mpt_rawdata_create (with one stage of values inside)          *)
+(*   stream   mpt_stream_input on a socket pair                             *)
 (*   geninfo  mpt_meta_geninfo  (not shareable: addref answers 0)           *)
 (*   metabuf  mpt_meta_buffer   (not shareable, clonable)                   *)
 (*   cxxref   C++ reference<T>::type with reference<T> handles              *)
@@ -43,8 +44,8 @@ Objs    == 1..NObj
 
 ---------------------------------------------------------------------------
 (* what each kind offers *)
-MetaKinds   == {"hmeta", "reply", "rawdata", "geninfo", "metabuf"}
-Sharable(k) == k \in {"buf", "hmeta", "reply", "rawdata", "cxxref"}
+MetaKinds   == {"hmeta", "reply", "rawdata", "stream", "geninfo", "metabuf"}
+Sharable(k) == k \in {"buf", "hmeta", "reply", "rawdata", "stream", "cxxref"}
 Clonable(k) == k \in {"hmeta", "geninfo", "metabuf"}
 Pokable(k)  == k \in {"hmeta", "cxxref"}
 CntSeen(k)  == k \in {"hmeta", "cxxref"}          \* the driver can read the counter
@@ -96,7 +97,9 @@ Answer(a, arg, ret, gone, val) ==
                                                  /\ HRefsOf(holds', copyh', hascopy', o) + extra'[o] + defer'[o] > 0
                                               THEN Bit(HRefsOf(holds', copyh', hascopy', o) + extra'[o] + defer'[o] > 1) ELSE -1],
                    val    |-> val,
-                   bare   |-> IF kind = "bare" THEN cnt'[1] ELSE -1]]
+                   bare   |-> IF kind = "bare" THEN cnt'[1] ELSE -1,
+                   quiet  |-> IF ~hascopy' /\ \A o \in Objs : HRefsOf(holds', copyh', hascopy', o) + extra'[o] + defer'[o] = 0
+                              THEN 0 ELSE -1]]   \* nothing refers to anything: nothing may stay allocated
 
 Tier1Same == UNCHANGED <<holds, copyh, hascopy, extra, defer, made>>
 Same      == Tier1Same /\ UNCHANGED <<cnt, alive>>
@@ -228,6 +231,20 @@ ArrDrop ==
   /\ UNCHANGED <<holds, extra, defer, made>>
   /\ Answer("arrdrop", [x |-> 0], "ok", m.gone, -1)
 
+(* copy-on-write detach of a buffer (buffer detach(), mpt_array_reserve): a shared buffer is left *)
+(* to the other holders and the handle gets a buffer of its own; a unique one stays               *)
+Unshare(h, via) ==
+  LET o == holds[h]  arg == [h |-> h, via |-> via] IN
+  /\ kind = "buf" /\ o # 0 /\ Frame
+  /\ IF cnt[o] > 1
+     THEN /\ made < NObj
+          /\ LET n == made + 1  m == MLower(M0, o) IN
+               /\ made' = n /\ holds' = [holds EXCEPT ![h] = n]
+               /\ cnt' = [m.cnt EXCEPT ![n] = 1] /\ alive' = [m.alive EXCEPT ![n] = TRUE]
+          /\ UNCHANGED <<copyh, hascopy, extra, defer>>
+          /\ Answer("unshare", arg, "ok", <<>>, -1)
+     ELSE Same /\ Answer("unshare", arg, "ok", <<>>, -1)
+
 (* metatype clone(): a new object for the empty handle g, or refused *)
 Clone(h, g) ==
   LET o == holds[h] IN
@@ -266,7 +283,7 @@ InitKind(k) ==
   /\ obs = [a |-> "init", arg |-> [kind |-> k, nh |-> NH, nobj |-> NObj, max |-> Max],
             exp |-> [ret |-> "ok", href |-> [h \in Handles |-> 0], copy |-> [h \in Handles |-> 0],
                      alive |-> [o \in Objs |-> 0], gone |-> <<>>, cnt |-> [o \in Objs |-> -1],
-                     shared |-> [o \in Objs |-> -1], val |-> -1, bare |-> IF k = "bare" THEN 1 ELSE -1]]
+                     shared |-> [o \in Objs |-> -1], val |-> -1, bare |-> IF k = "bare" THEN 1 ELSE -1, quiet |-> 0]]
 Init == \E k \in Kinds : InitKind(k)
 
 PokeVals(o) == {Max - 1, Max} \cup (IF HRefs(o) + defer[o] >= 1 THEN {HRefs(o) + defer[o]} ELSE {})
@@ -276,6 +293,7 @@ Next ==
   \/ \E h \in Handles, g \in Handles, via \in CopyVias(kind) : Copy(h, g, via)
   \/ \E h \in Handles, via \in DropVias(kind) : Drop(h, via)
   \/ \E h \in Handles, g \in Handles : Move(h, g) \/ Clone(h, g)
+  \/ \E h \in Handles, via \in {"vptr", "reserve"} : Unshare(h, via)
   \/ \E h \in Handles, o \in Objs : Adopt(h, o)
   \/ \E o \in Objs : RawRef(o) \/ RawUnref(o) \/ Defer(o) \/ Undefer(o)
   \/ \E o \in Objs : \E v \in PokeVals(o) : Poke(o, v)
